@@ -213,7 +213,8 @@ package protocol
 //@ func (t *segmentTree) Insert(seg *segment) (ok bool)
 //@   trusted ordered container over google/btree; the log is ghost state
 //@   requires wfSegMeta(seg)
-//@   modifies ghost(qn), ghost(qlog), ghost(sqrem)
+//@   modifies ghost(qn), ghost(qlog), ghost(sqrem), ghost(inserted)
+//@   sets ghost(inserted) = 1
 //@   ensures t == ghost(sq) ==> (ok <==> old(ghost(sqrem)) > 0) && ghost(sqrem) == old(ghost(sqrem)) - ite(ok, 1, 0)
 //@   ensures t != ghost(sq) ==> ghost(sqrem) == old(ghost(sqrem))
 //@   ensures ok && t == ghost(rq) ==> ghost(qn) == old(ghost(qn)) + 1 && ghost(qlog)[old(ghost(qn))] == seqOf(seg)
@@ -324,9 +325,22 @@ package protocol
 //@   requires s != nil && wfSegMeta(seg)
 //@   assert_call Session.Close: old(s.transportProtocol) == common.StreamTransport || old(protoOf(seg)) != 4 || old(payload(seg.metadata, *sessionStruct).seq) == old(s.nextRecv.v)
 //@
+//@ // Graceful close (C03): the close request of a graceful Close is written to the underlay
+//@ // directly only after it was offered to the send queue - behind whatever data is still
+//@ // queued - whatever the session's state; callers assume nothing about the effects of this
+//@ // function (noframe). The bounded wait and the goroutine hand-over are schedule matters.
 //@ func (s *Session) closeWithError(err error) (r error)
-//@   trusted shutdown sequence coordinating the session's goroutines (schedules are outside the technique); nothing is assumed about its effects
+//@   property C03
+//@   mode int
+//@   partial
+//@   posts_only
 //@   noframe
+//@   may_panic
+//@   requires s != nil
+//@   sets ghost(inserted) = 0
+//@   assert_call Session.output: err != nil || ghost(inserted) == 1
+//@   loop 1:
+//@     invariant ghost(inserted) == 1 && gracefulClose
 //@
 //@ // Quota (C19): a session is admitted (ok without error) only after every quota of the
 //@ // user's policy has been evaluated against both of the user's counters; it is refused only
@@ -397,7 +411,7 @@ package protocol
 //@ // that the metadata AEAD tag authenticates; a server returns a segment only after
 //@ // some cipher block decrypted its metadata, and never a segment flagged as replay.
 //@ func (u *PacketUnderlay) readOneSegment() (seg *segment, addr net.Addr, err error)
-//@   property C05 C02
+//@   property C05 C02 C06
 //@   mode int
 //@   partial
 //@   posts_only
@@ -405,11 +419,17 @@ package protocol
 //@   may_panic
 //@   preserves ghost(wr), ghost(dsent)
 //@   requires u != nil && (u.isClient ==> u.block != nil)
+//@   sets ghost(shown) = 0
 //@   check_pre parseSessionSegment, parseDataAckSegment, serverTryDecryptMetadataForNewSession
 //@   assert_call ReplayCache.IsDuplicate: len(arg0) == 16 && baseof(arg0) == baseof(b) && len(b) >= 48
 //@   // the receive buffer holds any datagram a peer may legally send: the largest MTU the
 //@   // configuration accepts is 1500 (C02: a truncated datagram is dropped at every retransmission)
 //@   assert_call net.PacketConn.ReadFrom: len(arg0) >= 1500
+//@   // every datagram that passes the length check is shown to the replay cache before any
+//@   // attempt to decrypt it - established-session traffic included (C06)
+//@   assert_call PacketUnderlay.tryDecryptExistingSession: [C06 C05] ghost(shown) == 1
+//@   assert_call PacketUnderlay.serverTryDecryptMetadataForNewSession: [C06 C05] ghost(shown) == 1
+//@   assert_call BlockCipher.Decrypt: [C06 C05] ghost(shown) == 1
 //@   assert_at "return seg, addr, nil": u.isClient || (!isNewSessionReplay && blockCipher != nil)
 //@   ensures seg != nil && !old(u.isClient) ==> seg.block != nil
 //@   loop 1:
@@ -418,7 +438,7 @@ package protocol
 //@ func (u *PacketUnderlay) tryDecryptExistingSession(encryptedMeta []byte, addr net.Addr) (decryptedMeta []byte, blockCipher cipher.BlockCipher, matchedPolicy serveruser.Policy, decrypted bool)
 //@   mode int
 //@   noframe
-//@   preserves PacketUnderlay.baseUnderlay.isClient, PacketUnderlay.block, ghost(wr), ghost(dsent)
+//@   preserves PacketUnderlay.baseUnderlay.isClient, PacketUnderlay.block, ghost(wr), ghost(dsent), ghost(shown)
 //@   requires u != nil
 //@
 //@ func (u *PacketUnderlay) serverTryDecryptMetadataForNewSession(encryptedMeta []byte, source serveruser.Source) (b cipher.BlockCipher, meta []byte, auth serveruser.Authentication, err error)
@@ -493,7 +513,7 @@ package protocol
 //@ // cipher is installed (on a server: only after Discover authenticated the first
 //@ // segment and it was not a replay), and a failed first segment leaves none installed.
 //@ func (t *StreamUnderlay) readOneSegment() (seg *segment, err error)
-//@   property C05 C10
+//@   property C05 C10 C06
 //@   mode int
 //@   partial
 //@   posts_only
@@ -503,6 +523,9 @@ package protocol
 //@   requires t != nil && t.conn != nil && typeof(t.conn) != typeid(*bytes.Reader)
 //@   check_pre readSessionSegment, readDataAckSegment, serverInitRecvBlockCipherAndDecryptMetadata
 //@   assert_call ReplayCache.IsDuplicate: len(arg0) == 16 && baseof(arg0) == baseof(encryptedMeta) && len(encryptedMeta) >= 48
+//@   sets ghost(shown) = 0
+//@   assert_call StreamUnderlay.serverInitRecvBlockCipherAndDecryptMetadata: [C06 C05] ghost(shown) == 1
+//@   assert_call BlockCipher.Decrypt: [C06 C05] ghost(shown) == 1
 //@   assert_at "return seg, nil": t.recv != nil && (t.isClient || !isNewSessionReplay)
 //@   ensures seg != nil ==> t.recv != nil
 //@   // every failure carries an error type the event loop knows how to handle: RunEventLoop
